@@ -144,6 +144,90 @@ def rule_n(ctx):
     return res.finish(2)
 
 
+def rule_whitenscale(ctx):
+    """Whitening rescales the components by sqrt(n - 1) / sigma, where sigma are the singular values of the centred record
+    matrix: sigma^2 / (n - 1) is the variance along a component for the n *rows* that went into the decomposition.  Mean
+    and decomposition are unweighted, so the n of the scale is the row count as well - a scale computed from the sample
+    weights belongs to another covariance than the one that was decomposed."""
+    res = RuleResult("R-C18-whitenscale", "the whitening scale of Pca::fit is computed from the row count of the decomposed matrix, not from the sample weights")
+    F = ctx.facts()
+    for fn in pca_fit(res, F):
+        c = fn["crate"]
+        r = Render(c)
+        key = fn_key(fn)
+        res.instance(key)
+        inits = {}
+        for y in walk(fn["body"]):
+            if y.get("k") == "LetStmt" and y.get("init") is not None and y["pat"].get("k") == "Bind":
+                inits[y["pat"]["local"]] = y["init"]
+        wh = next((y for y in walk(fn["body"]) if y.get("k") == "If" and any(z.get("k") == "Field" and z["name"] == "apply_whitening" for z in walk(y["c"]))), None)
+        if wh is None:
+            res.undecided("%s : whitening-branch" % key, "no `if self.apply_whitening` (fail closed)", fn_loc(fn))
+            continue
+        seen, calls, stack = set(), [], [wh["then"]]
+        while stack:
+            e = stack.pop()
+            for y in walk(e):
+                if y.get("k") == "MethodCall":
+                    calls.append(y)
+                if y.get("k") == "Path" and y.get("local") in inits and y["local"] not in seen:
+                    seen.add(y["local"])
+                    stack.append(inits[y["local"]])
+        names = [y["name"] for y in calls]
+        w = next((y for y in calls if y["name"] in ("weights", "weight_for", "weight_iter")), None)
+        if w is not None:
+            res.violate("%s : whitening-scale-from-weights" % key, "the whitening scale reads `%s`: mean and singular values are those of the unweighted rows, so sqrt(sum(w) - 1) / sigma does not give unit variance (and is NaN for sum(w) < 1) as soon as the weights do not sum to the row count" % r.e(w)[:40], fn_loc(fn, w.get("ln")))
+        elif any(nm in ("nsamples", "nrows", "len_of") for nm in names):
+            res.ok()
+        else:
+            res.undecided("%s : scale-source" % key, "the whitening branch reads neither the row count nor the weights (fail closed)", fn_loc(fn, wh.get("ln")))
+    return res.finish(1)
+
+
+def rule_centreonce(ctx):
+    """predict / predict_inplace subtract the stored mean before projecting.  A caller inside the type that has subtracted
+    the mean itself and then delegates to them centres twice: scores shifted by -mean . components^T."""
+    res = RuleResult("R-C18-centreonce", "no method of Pca subtracts the mean from data it then hands to predict / predict_inplace / transform (which centre themselves)")
+    F = ctx.facts()
+    fns = [f for f in F.all_fns() if f["d"]["krate"] == "linfa_reduction" and (f["d"].get("self_adt") or "").endswith("Pca") and not f.get("exp") and f["d"]["name"] in ("transform", "predict", "predict_inplace", "inverse_transform")]
+    if len(fns) < 2:
+        res.missing_anchor("predict_inplace / transform of Pca (found %d)" % len(fns))
+    for fn in fns:
+        c = fn["crate"]
+        r = Render(c)
+        key = fn_key(fn) + " [" + (fn["inputs"][1][:30] if len(fn["inputs"]) > 1 else "") + "]"
+        res.instance(key)
+
+        def mean_of_self(e):
+            return any(z.get("k") == "Field" and z["name"] == "mean" and peel_refs(z["e"]).get("name") == "self" for z in walk(e))
+        centred = {}
+        for y in walk(fn["body"]):
+            if y.get("k") == "AssignOp" and y["op"] == "-" and mean_of_self(y["r"]):
+                b = peel_refs(y["l"])
+                if b.get("k") == "Path" and "local" in b:
+                    centred[b["local"]] = y
+            if y.get("k") == "MethodCall" and y["name"] in ("sub_assign", "zip_mut_with", "scaled_add") and any(mean_of_self(a) for a in y["args"]):
+                b = peel_refs(y["recv"])
+                if b.get("k") == "Path" and "local" in b:
+                    centred[b["local"]] = y
+            if y.get("k") == "LetStmt" and y.get("init") is not None and y["pat"].get("k") == "Bind":
+                i0 = peel_refs(y["init"])
+                if i0.get("k") == "Binary" and i0["op"] == "-" and mean_of_self(i0["r"]):
+                    centred[y["pat"]["local"]] = y
+        bad = None
+        for y in walk(fn["body"]):
+            if y.get("k") == "MethodCall" and y["name"] in ("predict", "predict_inplace", "transform") and peel_refs(y["recv"]).get("name") == "self":
+                for a in y["args"]:
+                    for z in walk(a):
+                        if z.get("k") == "Path" and z.get("local") in centred:
+                            bad = (y, centred[z["local"]])
+        if bad:
+            res.violate("%s : centred-twice" % key, "`%s` subtracts the stored mean, then `%s` is called on the result and subtracts it again: every score is shifted by -mean . components^T" % (r.e(bad[1])[:40], r.e(bad[0])[:40]), fn_loc(fn, bad[0].get("ln")))
+        else:
+            res.ok()
+    return res.finish(2)
+
+
 def rule_project(ctx):
     """'Transform followed by inverse transform is the orthogonal projection onto the component subspace about the mean':
     with E the stored components and m the stored mean, inverse_transform(predict(x)) must be the affine map
@@ -347,7 +431,7 @@ def rule_rowlocal(ctx):
 def rules(tier):
     from . import carry, c04
     from . import precision
-    return [rule_guard, rule_n, rule_project, rule_memorder, rule_overwrite, rule_stale, rule_ratio_paths, c01.rule_width,
+    return [rule_whitenscale, rule_centreonce, rule_guard, rule_n, rule_project, rule_memorder, rule_overwrite, rule_stale, rule_ratio_paths, c01.rule_width,
             carry.make_clone_rule("R-C18-clone", {"linfa_reduction"}, 4), carry.make_setter_rule("R-C18-override", {"linfa_reduction"}, 2), rule_rowlocal,
             precision.make_rule("R-C18-precision", lambda f: f["d"]["krate"] == "linfa_reduction" and "pca" in fn_file(f), 9, "linfa-reduction pca"),
             carry.make_accessor_rule("R-C18-accessor", {"linfa_reduction"}, 4), carry.make_ctor_rule("R-C18-ctor", {"linfa_reduction"}, 2)]
